@@ -221,17 +221,14 @@ def pointW (P : Progs) (t : Thread) : WPc :=
 
 /-- program point of the hand-written system for the controller whose next micro-op is visible (or idle) -/
 def pointM (P : Progs) (t : Thread) : MPc :=
-  match t.stack with
-  | [] => .idle
-  | _ :: _ =>
-    match topOp P t.stack with
-    | some (.storeIndex 0) => .setIdx
-    | some (.storeTC 1) => .sigStore
-    | some .incRound => .sigInc
-    | some .fetchIndex => .fetch
-    | some .callFun => .call t.index
-    | some .waitTCgeN => .waitDone
-    | _ => .idle          -- not a program point of the controller (unreachable)
+  match topOp P t.stack with
+  | some (.storeIndex 0) => .setIdx
+  | some (.storeTC 1) => .sigStore
+  | some .incRound => .sigInc
+  | some .fetchIndex => .fetch
+  | some .callFun => .call t.index
+  | some .waitTCgeN => .waitDone
+  | _ => .idle            -- empty stack: not in apply (any other micro-op: not a program point of the controller, unreachable)
 
 /-- a worker's program point = the next visible micro-op it will execute -/
 def absW (P : Progs) (len : Nat) (t : Thread) : WPc := pointW P (settle P len settleFuel t)
